@@ -100,7 +100,7 @@ def run(P, C, tier):
     per_variant = {}
     for bi, t in pb.live_calls():
         args = pb.call_args(bi)
-        if not any(field_path(a) == "daily_log" for a in args):
+        if not any("DailyMutations" in pb.root_type(a) for a in args):
             continue
         name = callee_name(t)
         if name.endswith("DailyMutations::write") or name.endswith("default"):
@@ -117,8 +117,10 @@ def run(P, C, tier):
             for bi, name in sites:
                 reaches = any(x == name or x.endswith(name) or name.endswith(x) for x in marking_fns) or name in marking_fns
                 # after the write of the same arm: the write call dominates the mark (or the callee is the write itself)
-                writes = [wb for wb, wt in pb.live_calls() if variant_guard(pb, wb, WM) == v and any(field_path(a) == "conn" for a in pb.call_args(wb)) and wb != bi and not callee_name(wt).endswith("Connection::execute")]
-                after = all(pb.dominates(wb, bi) for wb in writes) if writes else any(field_path(a) == "conn" for a in pb.call_args(bi))
+                def _conn(x):
+                    return pb.root_type(x).endswith("rusqlite::Connection")
+                writes = [wb for wb, wt in pb.live_calls() if variant_guard(pb, wb, WM) == v and any(_conn(a) for a in pb.call_args(wb)) and wb != bi and not callee_name(wt).endswith("Connection::execute")]
+                after = all(pb.dominates(wb, bi) for wb in writes) if writes else any(_conn(a) for a in pb.call_args(bi))
                 ok = ok and reaches and after
                 det.append("%s reaches set_need_update=%s, after the write=%s" % (mir.short(name), reaches, after))
             C.ob("R2", "variant:" + v, ok, pb.loc(sites[0][0]) if sites else pb.loc(), "; ".join(det) or "no call receives &mut daily_log in this arm")
